@@ -1,0 +1,14 @@
+//go:build verif
+
+package bash
+
+// VerifSetState sets the package state normally left behind by Patch.
+func VerifSetState(prefix, ctype string) {
+	wordbreakPrefix = prefix
+	compType = ctype
+}
+
+// VerifState returns the package state left behind by Patch.
+func VerifState() (string, string) {
+	return wordbreakPrefix, compType
+}
